@@ -128,3 +128,46 @@ def dagger(env, M):
 
 def eye(env, n):
     return env.np.identity(n)
+
+
+def sample_physical_state(rng, d, name="s", displaced=True, pure=False):
+    """values for generic_gaussian_state(name) describing a *physical* Gaussian state:
+    thermal occupations pushed through random squeezers and a random interferometer, computed
+    from the definitions of C = <a^+ a> and G = <a a> (independent of piquasso)."""
+    import math
+    import numpy as np
+    nbar = np.array([0.0 if pure else rng.choice([0.0, 0.25, 0.5, 1.0]) for _ in range(d)])
+    C = np.diag(nbar).astype(complex)
+    G = np.zeros((d, d), dtype=complex)
+    m = np.array([complex(rng.randint(-8, 8) / 8.0, rng.randint(-8, 8) / 8.0) if displaced else 0j for _ in range(d)])
+
+    def apply(P, A, C, G, m):
+        I = np.identity(d)
+        G2 = P @ G @ P.T + A @ G.conj().T @ A.T + P @ (C.T + I) @ A.T + A @ C @ P.T
+        C2 = P.conj() @ C @ P.T + A.conj() @ (C.T + I) @ A.T + P.conj() @ G.conj().T @ A.T + A.conj() @ G @ P.T
+        return C2, G2, P @ m + A @ m.conj()
+
+    for i in range(d):
+        r, phi = rng.uniform(-0.8, 0.8), rng.uniform(-3, 3)
+        P = np.identity(d, dtype=complex)
+        A = np.zeros((d, d), dtype=complex)
+        P[i, i] = math.cosh(r)
+        A[i, i] = -math.sinh(r) * np.exp(1j * phi)
+        C, G, m = apply(P, A, C, G, m)
+    if d > 1:
+        import scipy.stats
+        U = scipy.stats.unitary_group.rvs(d, random_state=rng.randint(0, 2 ** 31 - 1))
+        C, G, m = apply(U, np.zeros((d, d), dtype=complex), C, G, m)
+    vals = {}
+    for i in range(d):
+        if displaced:
+            vals["%sm%d.re" % (name, i)] = m[i].real
+            vals["%sm%d.im" % (name, i)] = m[i].imag
+        vals["%sC%d%d" % (name, i, i)] = C[i, i].real
+        for j in range(i + 1, d):
+            vals["%sC%d%d.re" % (name, i, j)] = C[i, j].real
+            vals["%sC%d%d.im" % (name, i, j)] = C[i, j].imag
+        for j in range(i, d):
+            vals["%sG%d%d.re" % (name, i, j)] = G[i, j].real
+            vals["%sG%d%d.im" % (name, i, j)] = G[i, j].imag
+    return vals
